@@ -64,7 +64,7 @@ def occupancy(events):
             if cls is not None:
                 g = {"cpp_member": 1, "cpp_constructor": 0, "cpp_class": 3}.get(k)
                 if g is not None:
-                    occ[cls][g] = 1
+                    occ[cls][g] = min(occ[cls][g] + 1, 2 if g in (0, 1) else 1)     # members/ctors: 0, 1, 2+
             st.append((k, i))
             if k == "cpp_class":
                 occ[i] = [0, 0, 0, 0]
